@@ -184,3 +184,91 @@ Example C11_wf_small_examples :
 Proof. split; [exact wf_ffp_example|split; reflexivity]. Qed.
 Example C11_wf_getkey_example : exists g, wf_getkey g = true /\ len (gk_target_sd g) = 5 /\ gk_l2 g = -2147483648.
 Proof. eexists. split; [exact wf_getkey_example|split; reflexivity]. Qed.
+
+(* ---- tie to the source: the whole bodies of the fixed-layout codecs of _gkdi.py and of _blob.KeyIdentifier, regenerated
+   as syntax on every run (gen/F_gkdi.v) and run in the world Flow/World_gkdi_codecs.v, ARE the model functions the
+   theorems above are about -- for all arguments (records, input bytes).  `cls` is the class token where the body reads
+   cls.magic, and any value where it does not use cls. ---- *)
+(* imported here, not at the top: Prelude.PyAst exports Coq's String, whose `++` would capture the statements above *)
+From V Require Import Prelude.PyAst Prelude.PyWorld gen.F_gkdi Flow.World_gkdi_codecs.
+From V Require Import Proofs.Flow_gkdi_codecs_params Proofs.Flow_gkdi_codecs_envelope Proofs.Flow_gkdi_codecs_keyid Proofs.Flow_gkdi_codecs_getkey.
+
+Theorem C11_flow_kdfp_pack : forall fuel name,
+  run W fuel k_flow_kdfp_pack [VO (OKdfp name)] = (let* b := KDFParameters_pack name in Ok (VB b)).
+Proof. exact flow_kdfp_pack. Qed.
+Print Assumptions C11_flow_kdfp_pack.
+Theorem C11_flow_kdfp_unpack : forall fuel c data,
+  run W fuel k_flow_kdfp_unpack [c; VB data] = (let* n := KDFParameters_unpack data in Ok (VO (OKdfp n))).
+Proof. exact flow_kdfp_unpack. Qed.
+Print Assumptions C11_flow_kdfp_unpack.
+Theorem C11_flow_kdfp_hash_algorithm : forall fuel name,
+  run W fuel k_flow_kdfp_hash_algorithm [VO (OKdfp name)] = (let* h := hash_algorithm name in Ok (VO (OHash h))).
+Proof. exact flow_kdfp_hash_algorithm. Qed.
+Print Assumptions C11_flow_kdfp_hash_algorithm.
+
+Theorem C11_flow_gke_pack : forall fuel e,
+  run W fuel k_flow_gke_pack [VO (OEnv e)] = (let* b := GroupKeyEnvelope_pack e in Ok (VB b)).
+Proof. exact flow_gke_pack. Qed.
+Print Assumptions C11_flow_gke_pack.
+Theorem C11_flow_gke_unpack : forall fuel data,
+  run W fuel k_flow_gke_unpack [VO (OCls CGke); VB data] = (let* e := GroupKeyEnvelope_unpack data in Ok (VO (OEnv e))).
+Proof. exact flow_gke_unpack. Qed.
+Print Assumptions C11_flow_gke_unpack.
+
+Theorem C11_flow_kid_pack : forall fuel k,
+  run W fuel k_flow_kid_pack [VO (OKid k)] = (let* b := KeyIdentifier_pack k in Ok (VB b)).
+Proof. exact flow_kid_pack. Qed.
+Print Assumptions C11_flow_kid_pack.
+Theorem C11_flow_kid_unpack : forall fuel data,
+  run W fuel k_flow_kid_unpack [VO (OCls CKid); VB data] = (let* k := KeyIdentifier_unpack data in Ok (VO (OKid k))).
+Proof. exact flow_kid_unpack. Qed.
+Print Assumptions C11_flow_kid_unpack.
+Theorem C11_flow_kid_is_public_key : forall fuel k,
+  run W fuel k_flow_kid_is_public_key [VO (OKid k)] = Ok (VI (if kid_is_public_key k then 1 else 0)).
+Proof. exact flow_kid_is_public_key. Qed.
+Print Assumptions C11_flow_kid_is_public_key.
+
+Theorem C11_flow_getkey_pack : forall fuel g,
+  run W fuel k_flow_getkey_pack [VO (OGetKey g)] = (let* b := GetKey_pack g in Ok (VB b)).
+Proof. exact flow_getkey_pack. Qed.
+Print Assumptions C11_flow_getkey_pack.
+Theorem C11_flow_getkey_unpack : forall fuel c data,
+  run W fuel k_flow_getkey_unpack [c; VB data] = (let* g := GetKey_unpack data in Ok (VO (OGetKey g))).
+Proof. exact flow_getkey_unpack. Qed.
+Print Assumptions C11_flow_getkey_unpack.
+Theorem C11_flow_getkey_unpack_response : forall fuel c data,
+  run W fuel k_flow_getkey_unpack_response [c; VB data] = (let* e := GetKey_unpack_response data in Ok (VO (OEnv e))).
+Proof. exact flow_getkey_unpack_response. Qed.
+Print Assumptions C11_flow_getkey_unpack_response.
+
+Theorem C11_flow_ffk_pack : forall fuel k,
+  run W fuel k_flow_ffk_pack [VO (OFfk k)] = (let* b := FFCDHKey_pack k in Ok (VB b)).
+Proof. exact flow_ffk_pack. Qed.
+Print Assumptions C11_flow_ffk_pack.
+Theorem C11_flow_ffk_unpack : forall fuel data,
+  run W fuel k_flow_ffk_unpack [VO (OCls CFfk); VB data] = (let* k := FFCDHKey_unpack data in Ok (VO (OFfk k))).
+Proof. exact flow_ffk_unpack. Qed.
+Print Assumptions C11_flow_ffk_unpack.
+
+Theorem C11_flow_eck_pack : forall fuel k,
+  run W fuel k_flow_eck_pack [VO (OEck k)] = (let* b := ECDHKey_pack k in Ok (VB b)).
+Proof. exact flow_eck_pack. Qed.
+Print Assumptions C11_flow_eck_pack.
+Theorem C11_flow_eck_unpack : forall fuel c data,
+  run W fuel k_flow_eck_unpack [c; VB data] = (let* k := ECDHKey_unpack data in Ok (VO (OEck k))).
+Proof. exact flow_eck_unpack. Qed.
+Print Assumptions C11_flow_eck_unpack.
+Theorem C11_flow_eck_curve_and_hash : forall fuel k,
+  run W fuel k_flow_eck_curve_and_hash [VO (OEck k)] =
+  (let* (c, h) := curve_and_hash k in Ok (VT [VO (OCurve c); VO (OHash h)])).
+Proof. exact flow_eck_curve_and_hash. Qed.
+Print Assumptions C11_flow_eck_curve_and_hash.
+
+Theorem C11_flow_ffp_pack : forall fuel p,
+  run W fuel k_flow_ffp_pack [VO (OFfp p)] = (let* b := FFCDHParameters_pack p in Ok (VB b)).
+Proof. exact flow_ffp_pack. Qed.
+Print Assumptions C11_flow_ffp_pack.
+Theorem C11_flow_ffp_unpack : forall fuel data,
+  run W fuel k_flow_ffp_unpack [VO (OCls CFfp); VB data] = (let* p := FFCDHParameters_unpack data in Ok (VO (OFfp p))).
+Proof. exact flow_ffp_unpack. Qed.
+Print Assumptions C11_flow_ffp_unpack.
